@@ -67,9 +67,25 @@ func ghostSegmentsOrdered(w *Writer) bool {
 //@   panics when w.sealedFlag
 //@   modifies w.sealedBuffers
 //@   ensures len(w.sealedBuffers) <= old(len(w.sealedBuffers))
-//@   ensures forall(0, len(w.sealedBuffers), func(j int) bool { return w.sealedBuffers[j] == old(w.sealedBuffers[j+old(len(w.sealedBuffers))-len(w.sealedBuffers)]) })
+//@   ensures forall(0, len(w.sealedBuffers), func(j int) bool { return w.sealedBuffers[j] == old(w.sealedBuffers)[j+old(len(w.sealedBuffers))-len(w.sealedBuffers)] })
 //@   ensures forall(0, old(len(w.sealedBuffers))-len(w.sealedBuffers), func(j int) bool { return old(w.sealedBuffers[j]).latestSeqNum <= seqNum })
 //@   ensures ghostSegmentsOrdered(w)
 //@   loop 0:
 //@     invariant truncateIndex == -1
 //@     invariant forall(0, idx_, func(j int) bool { return w.sealedBuffers[j].latestSeqNum <= seqNum })
+
+// Put/Delete append one operation to the active segment (the bytes go through
+// io.Writer and are not modelled here) and advance the writer's sequence mark.
+//@ func Writer.Put
+//@   property C08
+//@   panics when w.sealedFlag
+//@   requires w.activeBuffer != nil && seqNum >= w.latestSeqNum
+//@   modifies w.latestSeqNum, bufferSegment.buf
+//@   ensures w.latestSeqNum == seqNum
+
+//@ func Writer.Delete
+//@   property C08
+//@   panics when w.sealedFlag
+//@   requires w.activeBuffer != nil && seqNum >= w.latestSeqNum
+//@   modifies w.latestSeqNum, bufferSegment.buf
+//@   ensures w.latestSeqNum == seqNum
